@@ -1,7 +1,7 @@
-PROP = {"engines": [("array", "bounds", 2500), ("deque", "bounds", 2500), ("pqueue", "default", 800), ("hashtable", "default", 1500),
+PROP = {"engines": [("list", "bounds", 2000), ("slist", "bounds", 1500), ("array", "bounds", 2500), ("deque", "bounds", 2500), ("pqueue", "default", 800), ("hashtable", "default", 1500),
                     ("tst", "default", 800), ("treetable", "default", 800), ("rbuf", "default", 500)],
         "level_text": "Coq theorems per engine: a step with a non-OK status returns the identical model state, and the range guards generated from the C source on this run "
                       "are equivalent to 'index outside the documented range' for all index/size values (array, deque, pqueue; hash table / TST / ring buffer: missing key, empty). "
                       "Correspondence: every indexed function x states {empty, single, full, wrapped} x arguments {0,1,size-1,size,size+1,2^31,2^63,2^64-2,2^64-1} with the full "
                       "observation compared before/after, plus a seeded sample of every other engine's scope.",
-        "assumptions": ["lists (C04 engine) and the tree table's error paths are covered by their own property checks; their inertness lemmas are added here as those engines land"]}
+        "assumptions": []}
